@@ -7,12 +7,28 @@ const MIXED: [&str; 14] = [
     "ALPHA", "Alpha", "aLpHa", "BETA", "Beta", "RC", "Rc", "PRE", "Pre", "PL", "Pl", "NB", "Nb",
     "nB",
 ];
+/// Words that people write into versions and that a tolerant parser might
+/// learn as synonyms of the documented modifiers; under the rule they are
+/// plain letters.
+const WORDS: [&str; 24] = [
+    "patchlevel", "patch", "level", "release", "final", "stable", "snapshot", "dev", "devel", "git", "svn", "cvs",
+    "build", "rev", "update", "ga", "sp1", "prealpha", "prerelease", "alpha1", "Beta", "candidate", "RC1", "PATCHLEVEL",
+];
 const PREFIXES: [&str; 18] = [
     "al", "alph", "bet", "be", "pr", "r", "p", "n",
     // a modifier directly behind a proper prefix of itself
     "alalpha", "alphalpha", "bbeta", "betbeta", "prpre", "ppre", "rrc", "ppl", "nnb", "nnb1",
 ];
-const JUNK: [&str; 14] = ["+", "~", ",", "!", "=", "*", "[", " ", "é", "€", "😀", "/", ":", "@"];
+const JUNK: [&str; 30] = [
+    "+", "~", ",", "!", "=", "*", "[", " ", "é", "€", "😀", "/", ":", "@",
+    // characters that are not ASCII letters or digits but become one under
+    // Unicode case folding / numeric classification (KELVIN SIGN -> k,
+    // I WITH DOT ABOVE -> i + combining dot, fullwidth and Arabic-Indic digits,
+    // superscript two, long s): ignored like any other character
+    "\u{212a}", "\u{0130}", "\u{ff11}", "\u{0663}", "\u{00b2}", "\u{017f}", "\u{ff21}", "\u{0430}",
+    // text pasted from a Makefile or a dependency line
+    ":../../devel/p", "../../", "$(PKGVERSION)", "[0-9]*", ",nb*", ".tgz", "#", "\u{feff}",
+];
 const NUMS: [&str; 14] = [
     "0", "1", "2", "3", "9", "10", "00", "007", "01", "20240101", "99", "100", "2147483648",
     "999999999999999999",
@@ -155,7 +171,11 @@ fn token(r: &mut Rng, letters: bool, junk: bool) -> String {
                 if !letters {
                     continue;
                 }
-                PREFIXES[r.below(PREFIXES.len())].to_string()
+                if r.chance(1, 3) {
+                    WORDS[r.below(WORDS.len())].to_string()
+                } else {
+                    PREFIXES[r.below(PREFIXES.len())].to_string()
+                }
             }
             _ => {
                 if !junk {
